@@ -13,7 +13,19 @@ import (
 
 type Warnings struct {
 	all []string
+
+	// calls of anonymous functions made so far by this evaluation, and how many of them are in progress
+	anonCalls int
+	anonDepth int
 }
+
+// An anonymous function can be passed to itself or to another anonymous function, e.g. ((f) => f(f))((f) => f(f)),
+// so neither the depth nor the number of calls that evaluating an expression makes is limited by the size of that
+// expression. Unlimited depth overflows the stack, which ends the process, and unlimited calls never return.
+const (
+	maxAnonFunctionDepth = 100
+	maxAnonFunctionCalls = 100000
+)
 
 func (w *Warnings) add(m string) {
 	if !slices.Contains(w.all, m) {
@@ -173,6 +185,16 @@ type AnonFunction struct {
 func (x *AnonFunction) Evaluate(env envs.Environment, scope *Scope, warnings *Warnings) types.XValue {
 	// create an XFunction which wraps our body expression
 	fn := func(env envs.Environment, args ...types.XValue) types.XValue {
+		if warnings.anonDepth >= maxAnonFunctionDepth {
+			return types.NewXErrorf("anonymous functions nested more than %d calls deep", maxAnonFunctionDepth)
+		}
+		if warnings.anonCalls >= maxAnonFunctionCalls {
+			return types.NewXErrorf("more than %d calls of anonymous functions", maxAnonFunctionCalls)
+		}
+		warnings.anonCalls++
+		warnings.anonDepth++
+		defer func() { warnings.anonDepth-- }()
+
 		// create new context that includes the args
 		argsMap := make(map[string]types.XValue, len(x.Args))
 		for i := range x.Args {
